@@ -11,6 +11,8 @@ package main
 // is given.
 
 import (
+	"bytes"
+	"compress/gzip"
 	"context"
 	"encoding/binary"
 	"errors"
@@ -117,8 +119,8 @@ type simAddr struct{}
 func (simAddr) Network() string { return "vsim" }
 func (simAddr) String() string  { return "vsim-peer" }
 
-func (c *simConn) LocalAddr() net.Addr                { return simAddr{} }
-func (c *simConn) RemoteAddr() net.Addr               { return simAddr{} }
+func (c *simConn) LocalAddr() net.Addr               { return simAddr{} }
+func (c *simConn) RemoteAddr() net.Addr              { return simAddr{} }
 func (c *simConn) SetDeadline(t time.Time) error     { return c.SetWriteDeadline(t) }
 func (c *simConn) SetReadDeadline(t time.Time) error { return nil }
 func (c *simConn) SetWriteDeadline(t time.Time) error {
@@ -249,45 +251,45 @@ func csmDecode(s string) ([]csmCall, []csmEvent) {
 
 // ---------------- the rig ----------------
 type callRT struct {
-	spec    csmCall
-	started bool
-	arg     *gateArg
-	hookRel chan struct{} // release of client.send.enter
-	entered chan struct{} // client.send.enter reached
-	exited  chan struct{} // client.send.exit fired
-	done    chan *client.Call
-	ret     chan string // blocking callers: class of the returned error / payload
-	cancel  context.CancelFunc
-	reply   int
-	breply  []byte
-	wr      *writeReq // current gated write
-	retVal  string
-	hasRet  bool
-	seq     int64 // registered seq (-1 unknown)
-	phase   string
-	ctxDone bool // the harness ended this call's own context
-	wroteOK bool // the transport accepted this call's frame
+	spec      csmCall
+	started   bool
+	arg       *gateArg
+	hookRel   chan struct{} // release of client.send.enter
+	entered   chan struct{} // client.send.enter reached
+	exited    chan struct{} // client.send.exit fired
+	done      chan *client.Call
+	ret       chan string // blocking callers: class of the returned error / payload
+	cancel    context.CancelFunc
+	reply     int
+	breply    []byte
+	wr        *writeReq // current gated write
+	retVal    string
+	hasRet    bool
+	seq       int64 // registered seq (-1 unknown)
+	phase     string
+	ctxDone   bool // the harness ended this call's own context
+	wroteOK   bool // the transport accepted this call's frame
 	earlyResp bool // a raw call: a response for its sequence number arrived while its write was still pending
 }
 
 type rig struct {
 	recvOpen   bool // frames were fed since the last barrier
 	recvBefore map[uint64]bool
-	bytesMode bool // SerializeNone with []byte arguments and *[]byte replies (replies alias the decoded frame)
-	cl       *client.Client
-	conn     *simConn
-	calls    []*callRT
-	pushCh   chan *protocol.Message
-	pushes   []int
-	modelEvs []string
-	fails    []string // oracle failures: "sig|detail"
-	sentinel int
-	hookMu   sync.Mutex
-	byMethod map[string]*callRT
-	readerUp bool
-	closedC  bool // Close() was called
-	nextSeq  uint64
-	fed      map[uint64][]csmEvent // non-push frames fed per seq, in order
+	bytesMode  bool // SerializeNone with []byte arguments and *[]byte replies (replies alias the decoded frame)
+	cl         *client.Client
+	conn       *simConn
+	calls      []*callRT
+	pushCh     chan *protocol.Message
+	pushes     []int
+	modelEvs   []string
+	fails      []string // oracle failures: "sig|detail"
+	sentinel   int
+	hookMu     sync.Mutex
+	byMethod   map[string]*callRT
+	readerUp   bool
+	closedC    bool // Close() was called
+	nextSeq    uint64
+	fed        map[uint64][]csmEvent // non-push frames fed per seq, in order
 }
 
 func errClass(err error) string {
@@ -510,6 +512,15 @@ func buildResp(e csmEvent, bytesMode bool) []byte {
 	var payload []byte
 	if e.push {
 		payload = []byte(strconv.Itoa(e.fid))
+		if e.fid%3 == 1 {
+			// every third server message travels gzip-compressed: decoding must leave its flags (one-way) as they are
+			var zb bytes.Buffer
+			zw := gzip.NewWriter(&zb)
+			zw.Write(payload)
+			zw.Close()
+			payload = zb.Bytes()
+			h[2] |= 1 << 2
+		}
 	} else if e.payload != 0 {
 		if e.dec {
 			payload = []byte(strconv.Itoa(e.payload))
